@@ -38,6 +38,10 @@ type Program struct {
 	All     map[*ssa.Function]bool
 	cg      *callgraph.Graph
 	goos    string
+	// roles.go
+	roleTypes    map[string]*types.Named
+	fuse         map[*types.Var]*fieldUse
+	logicalNames map[*types.Var]string
 }
 
 func loadEnv(goos string) []string {
@@ -116,6 +120,7 @@ func Load(repo string, goos string, subset []string) (*Program, error) {
 		p.SSAPkg[pkgs[i].PkgPath] = sp
 	}
 	p.All = ssautil.AllFunctions(prog)
+	p.registerOwners()
 	return p, nil
 }
 
